@@ -72,6 +72,8 @@ pub fn configs_c02(tier: Tier) -> Vec<Box<dyn Config>> {
     // the HashMap history space with all memory monitors (tracked + plain flavours)
     let mut c = MapCfg::new(Plan::Zero, if q { 6 } else { 11 });
     c.max_buckets = if sse2 { 64 } else { 32 };
+    // (iterator probes: every iterator at every position, incl. what its Debug impl walks over)
+    c.probes = vec![Probe::Iterators];
     let l = format!("{}-tracked-memory-monitors", c.label());
     v.push(Box::new(BfsConfig::new(l, MapHarness::<TKey, TVal>::new(c.clone()), Limits { max_wall_s: if q { 30.0 } else { 600.0 }, ..Default::default() })));
     c.plan = Plan::Last;
